@@ -75,7 +75,7 @@ func oracleC01(w *h.Worker, b *h.Built, inst string, st *trie.SlimTrie, u *input
 		if !found {
 			return &h.Viol{Sig: "get-false-negative", Msg: fmt.Sprintf("Get(%x) on retained key reports not found", k)}
 		}
-		if !eqVal(v, want) {
+		if !b.Match(i, v) {
 			return &h.Viol{Sig: "get-wrong-value", Msg: fmt.Sprintf("Get(%x) = %v, want %v", k, v, want)}
 		}
 		if id < 0 {
@@ -94,7 +94,7 @@ func oracleC02(w *h.Worker, b *h.Built, inst string, st *trie.SlimTrie, u *input
 		if !found {
 			return &h.Viol{Sig: "rangeget-not-found", Msg: fmt.Sprintf("RangeGet(%x) on indexed key (#%d) reports not found", k, i)}
 		}
-		if !eqVal(v, want) {
+		if !b.Match(i, v) {
 			return &h.Viol{Sig: "rangeget-wrong-value", Msg: fmt.Sprintf("RangeGet(%x) (#%d) = %v, want %v", k, i, v, want)}
 		}
 	}
@@ -125,7 +125,7 @@ func oracleC03(w *h.Worker, b *h.Built, inst string, st *trie.SlimTrie, u *input
 		if (id >= 0) != (eq >= 0) {
 			return &h.Viol{Sig: "complete-getid-foundness", Msg: fmt.Sprintf("GetID(%x)=%d, retained=%v", q, id, eq >= 0)}
 		}
-		if found && !eqVal(v, val(eq)) {
+		if found && !b.Match(b.Kept[eq], v) {
 			return &h.Viol{Sig: "complete-get-value", Msg: fmt.Sprintf("Get(%x)=%v want %v", q, v, val(eq))}
 		}
 		// RangeGet: greatest retained <= q
@@ -138,7 +138,7 @@ func oracleC03(w *h.Worker, b *h.Built, inst string, st *trie.SlimTrie, u *input
 		if rfound != (le >= 0) {
 			return &h.Viol{Sig: "complete-rangeget-foundness", Msg: fmt.Sprintf("RangeGet(%x) found=%v, want %v", q, rfound, le >= 0)}
 		}
-		if rfound && !eqVal(rv, val(le)) {
+		if rfound && !b.Match(b.Kept[le], rv) {
 			return &h.Viol{Sig: "complete-rangeget-value", Msg: fmt.Sprintf("RangeGet(%x)=%v want %v", q, rv, val(le))}
 		}
 		lv, ev, gv := st.Search(q)
@@ -168,13 +168,20 @@ func oracleC09(w *h.Worker, b *h.Built, inst string, st *trie.SlimTrie, u *input
 			wr = b.WantVal(b.Kept[j+1])
 		}
 		we := b.WantVal(i)
-		if !eqVal(ev, we) {
+		li, ri := -1, -1
+		if j > 0 {
+			li = b.Kept[j-1]
+		}
+		if j+1 < len(b.Kept) {
+			ri = b.Kept[j+1]
+		}
+		if !b.Match(i, ev) {
 			return &h.Viol{Sig: "search-eq", Msg: fmt.Sprintf("Search(%x) exact = %v want %v", k, ev, we)}
 		}
-		if !eqVal(lv, wl) {
+		if !b.Match(li, lv) {
 			return &h.Viol{Sig: "search-left", Msg: fmt.Sprintf("Search(%x) left = %v want %v", k, lv, wl)}
 		}
-		if !eqVal(gv, wr) {
+		if !b.Match(ri, gv) {
 			return &h.Viol{Sig: "search-right", Msg: fmt.Sprintf("Search(%x) right = %v want %v", k, gv, wr)}
 		}
 	}
